@@ -94,6 +94,9 @@ func c13Gen(r *core.Rng) c13case {
 			lead := []string{"", " ", "  ", "\\n", "\\t", " \\n "}[r.Intn(6)]
 			trail := []string{"", " ", "\\n", "\\n\\n", " \\t\\n"}[r.Intn(5)]
 			v.Text = "printf '" + lead + core + trail + "'"
+			if r.Chance(30) {
+				v.Text += " && printf 'noise on stderr' >&2" // not part of the value
+			}
 			v.Out = strings.TrimSpace(strings.NewReplacer("\\n", "\n", "\\t", "\t", "%%", "%").Replace(lead + core + trail))
 		}
 		k.Vars = append(k.Vars, v)
